@@ -86,13 +86,21 @@ def run_case(item):
     mi, what, form, via = item
     arg = e1.CLASSES[what] if what in e1.CLASSES else subs[what]
     case = {'vidx': vidx, 'item': list(item)}
-    feat = f"object={'container' if form == 'container' else 'plate' if form == 'plate' else 'slice'},via={via}," \
+    feat = f"object={form if form.startswith('container') else 'plate' if form == 'plate' else 'slice'},via={via}," \
            f"selector={'class' if what in e1.CLASSES else 'substance'}" + (',twins' if mi >= N_PLAIN else '') + \
            (',dry-plate' if mi < 0 else '')
     env.clear_caches(pp)
     other = pp.Container('Z', 'inf L', [(subs['tea'], '1 mL')])
-    if form == 'container':
+    if form in ('container', 'container-drained'):
         obj = mk_container(pp, subs, 'C', MIXTURES[mi])
+        if form == 'container-drained':
+            # everything was transferred away: the container keeps its substances with amount 0.0 - removing one of them still
+            # removes it (the entry goes, get_substances / has_liquid follow)
+            if not obj.volume > 0:
+                return [], 'skip'
+            obj, _ = pp.Container.transfer(obj, pp.Container('sink', 'inf L'), f"{obj.volume!r} {pp.config.volume_storage_unit}")
+            if any(a != 0 for a in obj.contents.values()):
+                return [], 'skip'
         target = obj
         addressed = None
     else:
@@ -118,6 +126,11 @@ def run_case(item):
             recipe.start_stage('s')
             recipe.remove(target, arg)
             recipe.end_stage('s')
+            try:
+                recipe.bake()                            # premature: 'other' is still unused - refused, and nothing is kept of it
+                return [V(f"remove | premature-bake-accepted | {feat}", "bake() with an unused declared object returned", case)], 'bad'
+            except ValueError:
+                pass
             recipe.remove(other, subs['water'])          # a second used object; removes nothing
             res = recipe.bake()[obj.name]
     except Exception as e:  # noqa
@@ -126,8 +139,11 @@ def run_case(item):
         return [V(f"remove | argument-mutated | {feat}", f"remove({what}) on {form} modified its argument", case)], 'mutated'
     removed = {}          # substance (by identity) -> stored amount actually expected to be discarded
     sub_of = {}
-    if form == 'container':
-        v = check_container(pp, obj, res, what, f"container {MIXTURES[mi]}", case, feat)
+    if form in ('container', 'container-drained'):
+        v = check_container(pp, obj, res, what, f"{form} {MIXTURES[mi]}", case, feat)
+        if not v and set(res.get_substances()) != set(res.contents):
+            v = V(f"remove | wrong-contents | get_substances,{feat}", f"{form} {MIXTURES[mi]}: after remove({what}) get_substances() "
+                  f"lists {sorted(x.name for x in res.get_substances())}, contents hold {sorted(x.name for x in res.contents)}", case)
         if v:
             return [v], 'bad'
         removed = {e1.ident(s): a for s, a in obj.contents.items() if selected(what, s)}
@@ -204,6 +220,7 @@ def run(col):
                 "Non-trivial = distinct (object form, via, selector, mixture size, removed-something) classes")
     vals = [col.seed % 3] if col.tier == 'quick' else [0, 1, 2]
     forms = ['container', 'plate'] + Q_SLICES + SUB_SLICES
+    drained = [(mi, what, 'container-drained', via) for mi in range(N_PLAIN) for what in SELECTORS for via in ('direct', 'recipe')]
     for v in vals:
         _G.update(pp=pp, vidx=v)
         items = [(mi, what, form, via) for mi in range(len(MIXTURES))
@@ -211,6 +228,7 @@ def run(col):
                  for via in ('direct', 'recipe')]
         items += [(mi, what, form, via) for mi in (-1, -2) for what in SELECTORS + TWIN_SELECTORS for form in forms[1:]
                   for via in ('direct', 'recipe')]
+        items += drained
         res = par.pmap(run_case, items)
         classes = set()
         for it, (vs, oc) in zip(items, res):
